@@ -281,7 +281,7 @@ func Main(t *testing.T, property string, cases []Case, params map[string]any) {
 		}
 		if o.Violation != "" {
 			// Re-execute 5x. Identical every time: a deterministic violation. The same cause key (and a
-			// violation) in at least 2 of the 5 re-executions: an intermittent violation — every execution is a
+			// violation) in at least 2 of the 5 re-executions — or, failing that, in at least 3 of 25: an intermittent violation — every execution is a
 			// real execution of the implementation, and here its outcome depends on nondeterminism inside the
 			// code under test (map iteration order, select order). Anything weaker is treated as harness
 			// nondeterminism: the run exits 2, never an alarm.
@@ -296,9 +296,20 @@ func Main(t *testing.T, property string, cases []Case, params map[string]any) {
 				}
 			}
 			same := identical == 5
+			if !same && sameKey < 2 && o.Key != "" {
+				// rarely reproducing: up to 20 more executions. The same cause three times in at most 26
+				// executions is still the implementation's own nondeterminism at work (a harness that flaked this
+				// often would show up as nondeterministic on the unchanged tree, where nothing of the kind is seen).
+				for i := 0; i < 20 && sameKey < 2; i++ {
+					o2 := c.Run(t)
+					if o2.Violation != "" && o2.Key == o.Key {
+						sameKey++
+					}
+				}
+			}
 			if !same && sameKey >= 2 {
 				same = true
-				o.Violation = fmt.Sprintf("[intermittent: %d of 6 executions of this case violate with this cause] %s", sameKey+1, o.Violation)
+				o.Violation = fmt.Sprintf("[intermittent: %d executions of this case (of at most 26) violate with this cause] %s", sameKey+1, o.Violation)
 				res.Counters["intermittent_violations"]++
 			}
 			if same {
